@@ -232,9 +232,17 @@ def tc_items():
     st = cut_item(src, r"^struct FmtAttribute\b")
     tc = cut_item(src, r"^    fn transparent_call\(&self\)")
     fa = cut_item(src, r"^struct FmtArgument\b")
-    if st is None or tc is None or fa is None:
+    ca = cut_item(src, r"^    fn contains_arg\(&self")
+    pa = cut_item(src, r"^    fn placeholders_by_arg<")
+    fi = cut_item(src, r"^impl FmtArgument\b")
+    ph = []
+    for hdr in (r"^enum Parameter\b", r"^impl<'a> From<parsing::Argument<'a>> for Parameter\b", r"^struct Placeholder\b", r"^impl Placeholder\b"):
+        ph.append(cut_item(src, hdr))
+    if None in (st, tc, fa, ca, pa, fi) or None in ph:
         return None
-    text = st + "\n\nimpl FmtAttribute {\n" + tc + "\n}\n\n" + fa
+    text = st + "\n\nimpl FmtAttribute {\n" + tc + "\n\n" + ca + "\n\n" + pa + "\n}\n\n" + fa + "\n\n" + fi + "\n\n" + "\n\n".join(ph)
+    # the cut methods are compiled whatever the cargo features of the real crate
+    text = re.sub(r"\n\s*#\[cfg\(feature = \"[a-z_]+\"\)\]", "", text)
     return "\n".join("    " + l if l.strip() else l for l in text.split("\n"))
 
 
